@@ -25,7 +25,7 @@ from .. import impl
 
 PID = 'C03'
 GEN_KW = {'n_cells': 9, 'features': ['names', 'array'], 'case_titles': True, 'overlaps': True,
-          'blockranges': True, 'dense': True}
+          'blockranges': True, 'dense': True, 'twoblocks': True}
 # C03's own workbooks also use whole-column references (SUM(A:A)); C07 / C08 share GEN_KW
 OWN_KW = dict(GEN_KW, features=['names', 'array', 'wholecol'])
 
